@@ -225,13 +225,48 @@ class Gen:
                 return sub(t, self.selector(env, n, d))
             keys = r.sample(["a", "b", "c", "pt"], n)
             t = ast.Dict(keys=[C(k) for k in keys], values=[self.num(env, d - 1) for _ in keys])
-            k = r.choice(keys)
-            return attr(t, k) if r.random() < 0.5 else sub(t, C(k))
+            how, sel = self.dict_selector(env, keys, d)
+            return attr(t, sel) if how == "attr" else sub(t, sel)
         return r.choice(src) if src else C(7)
 
     def selector(self, env, n, d):
         """Index for a literal of length n; hostile selectors only when enabled (C18)."""
-        return C(self.r.randint(0, n - 1))
+        r = self.r
+        if r.random() >= self.hostile_sel:
+            return C(r.randint(0, n - 1))
+        kind = r.choice(["oob", "neg-unary", "neg-const", "variable", "slice", "called-param"])
+        self.feat.add("selector:" + kind)
+        if kind == "oob":
+            self.oob = True
+            return C(n + r.randint(0, 2))
+        if kind == "neg-unary":
+            return ast.UnaryOp(op=ast.USub(), operand=C(r.randint(1, n)))
+        if kind == "neg-const":
+            return C(-r.randint(1, n))
+        if kind == "variable":
+            return ast.IfExp(test=self.boolean(env, d - 1), body=C(r.randint(0, n - 1)), orelse=C(r.randint(0, n - 1)))
+        if kind == "slice":
+            lo = r.choice([None, 0, 1])
+            hi = r.choice([None, 1, n])
+            return ast.Slice(lower=None if lo is None else C(lo), upper=None if hi is None else C(hi), step=None)
+        # an index that becomes constant only after beta reduction
+        return ast.Call(func=lam(["i_"], N("i_")), args=[C(r.randint(0, n - 1))], keywords=[])
+
+    def dict_selector(self, env, keys, d):
+        """-> (node builder) for a dict literal with the given keys; hostile kinds when enabled."""
+        r = self.r
+        if r.random() >= self.hostile_sel:
+            k = r.choice(keys)
+            return ("attr", k) if r.random() < 0.5 else ("sub", C(k))
+        kind = r.choice(["absent-attr", "absent-sub", "variable-key", "int-key"])
+        self.feat.add("selector:" + kind)
+        if kind == "absent-attr":
+            return ("attr", "zz")
+        if kind == "absent-sub":
+            return ("sub", C("zz"))
+        if kind == "variable-key":
+            return ("sub", ast.IfExp(test=self.boolean(env, d - 1), body=C(r.choice(keys)), orelse=C(r.choice(keys))))
+        return ("sub", C(0))
 
     def boolean(self, env, d):
         r = self.r
